@@ -89,7 +89,7 @@ DecodePairs(b, p, n, acc, dv) ==
 Payload(b, p, hdr, tag) ==      \* hdr = number of length bytes after the format byte
   IF ~Avail(b, p + 1, hdr) THEN Fail("trunc", p)
   ELSE LET n == IF hdr = 0 THEN 0 ELSE BEval(Slice(b, p + 1, hdr)) IN
-       IF ~Avail(b, p + 1 + hdr, n) THEN Fail("trunc", p)
+       IF ~Avail(b, p + 1 + hdr, n) THEN Fail(IF n > Len(b) THEN "count" ELSE "trunc", p)     \* "count": declared length exceeds the whole document
        ELSE Good(<<tag, Slice(b, p + 1 + hdr, n)>>, p + 1 + hdr + n)
 
 Container(b, p, hdr, isMap, dv) ==
@@ -112,7 +112,7 @@ ExtFixed(b, p, n, dv) ==
 ExtVar(b, p, hdr, dv) ==
   IF ~Avail(b, p + 1, hdr) THEN Fail("trunc", p)
   ELSE LET n == BEval(Slice(b, p + 1, hdr)) IN
-       IF ~Avail(b, p + 1 + hdr, 1) \/ ~Avail(b, p + 2 + hdr, n) THEN Fail("trunc", p)
+       IF ~Avail(b, p + 1 + hdr, 1) \/ ~Avail(b, p + 2 + hdr, n) THEN Fail(IF n > Len(b) THEN "count" ELSE "trunc", p)
        ELSE Good(ExtValue(b[p + 1 + hdr], Slice(b, p + 2 + hdr, n), dv), p + 2 + hdr + n)
 
 DecodeX(b, p, dv) ==
